@@ -12,6 +12,7 @@ import (
 	"time"
 
 	sdk "github.com/cosmos/cosmos-sdk/types"
+	authtypes "github.com/cosmos/cosmos-sdk/x/auth/types"
 	didtypes "github.com/medibloc/panacea-core/v2/x/did/types"
 )
 
@@ -24,6 +25,7 @@ type Profile struct {
 	PLag       float64
 	PReconfig  float64
 	PBootstrap float64
+	PRestart0  float64 // clean stop and start of the reference replica between two blocks
 	PUpgrade   float64 // per run
 	PAmino     float64
 	PHold      float64
@@ -37,12 +39,12 @@ type Profile struct {
 
 func baseWeights() map[string]int {
 	return map[string]int{"aol": 30, "aolAdv": 8, "did": 18, "didAdv": 8, "pnft": 22, "pnftAdv": 8, "bank": 4, "burn": 3, "vest": 1,
-		"authz": 5, "boundary": 4, "hostile": 3, "tamper": 4, "replay": 4, "multi": 5, "hquery": 2, "rollback": 4}
+		"authz": 5, "gov": 1, "boundary": 4, "hostile": 3, "tamper": 4, "replay": 4, "multi": 5, "hquery": 2, "rollback": 4}
 }
 
 func profileFor(prop, tier string, rng *PRNG) *Profile {
 	p := &Profile{W: baseWeights(), Blocks: [2]int{8, 28}, TxPerBlock: [2]int{0, 6}, Replicas: [2]int{2, 3},
-		PCrash: 0.10, PLag: 0.05, PReconfig: 0.03, PBootstrap: 0.04, PUpgrade: 0.15, PAmino: 0.2, PHold: 0.1, Seeded: 0.4,
+		PCrash: 0.10, PLag: 0.05, PReconfig: 0.03, PBootstrap: 0.04, PRestart0: 0.05, PUpgrade: 0.15, PAmino: 0.2, PHold: 0.1, Seeded: 0.4,
 		CrashEnum: 0, CrashSamp: 6, MidRate: 0.15, QueryEvery: 6, PJump: 0.15}
 	if tier == "thorough" {
 		p.Blocks = [2]int{10, 60}
@@ -100,17 +102,20 @@ func profileFor(prop, tier string, rng *PRNG) *Profile {
 		p.PCrash = 0.15
 	case "C08":
 		boost("pnft", 2)
+		boost("pnftAdv", 3)
 		boost("did", 2)
 		p.PBootstrap = 0.25
 		p.Seeded = 0.7
 	case "C09":
 		boost("rollback", 3)
+		boost("gov", 4)
 		p.Replicas = [2]int{3, 4}
 		p.PCrash, p.PLag, p.PReconfig = 0.1, 0.1, 0.08
 		p.MidRate = 0.3
 		p.Seeded = 0.7
 	case "C10":
 		boost("rollback", 3)
+		boost("gov", 8)
 		p.PCrash = 0.3
 		p.CrashEnum, p.CrashSamp = 2, 10
 		if tier == "thorough" {
@@ -148,6 +153,7 @@ func profileFor(prop, tier string, rng *PRNG) *Profile {
 		boost("hquery", 15)
 		boost("boundary", 4)
 	case "C19":
+		boost("gov", 3)
 		p.PUpgrade = 1.0
 		p.PCrash = 0.15
 		p.PReconfig = 0.1
@@ -176,6 +182,9 @@ func profileFor(prop, tier string, rng *PRNG) *Profile {
 	}
 	if rng.Chance(0.3) {
 		p.PHold = 0
+	}
+	if rng.Chance(0.3) {
+		p.PRestart0 = 0
 	}
 	for _, k := range []string{"bank", "burn", "vest", "authz", "hquery", "hostile", "boundary"} {
 		if rng.Chance(0.25) && p.W[k] < 40 {
@@ -212,6 +221,7 @@ type Gen struct {
 	boundaryPos int
 	hostilePos  int
 	whale       bool
+	nProposals  int
 	hasAtom     bool
 }
 
@@ -359,6 +369,11 @@ func (g *Gen) faults(b, nBlocks int) {
 	}
 	if b > 0 && r.Chance(g.p.PBootstrap) {
 		g.steps = append(g.steps, Step{K: "bootstrap"})
+	}
+	if b > 0 && r.Chance(g.p.PRestart0) {
+		// the reference replica is stopped cleanly and started again on its database: everything it keeps in process
+		// memory only is gone, and the per-transaction oracles judge what it does next
+		g.steps = append(g.steps, Step{K: "restart0"})
 	}
 }
 
@@ -516,6 +531,8 @@ func (g *Gen) family(f string) {
 		g.famDidAdv()
 	case "pnft":
 		g.famPnft()
+	case "gov":
+		g.famGov()
 	case "pnftAdv":
 		g.famPnftAdv()
 	case "bank":
@@ -896,7 +913,22 @@ func (g *Gen) famDidAdv() {
 	upd := func(p *ProofSpec, doc *DocSpec) {
 		g.tx(MsgSpec{T: "did.Update", F: map[string]string{"did": did, "from": from}, Doc: doc, Proof: p})
 	}
-	switch r.Intn(18) {
+	switch r.Intn(20) {
+	case 18, 19: // C11, a third identifier: every method id carries the did field's prefix, only the document's own id names something else
+		x := []string{g.env.Dids[other], caseVariant(did, r), "did:panacea:" + strings.Repeat("1", 32), "not-a-did", did + "x", did[:len(did)-1]}[r.Intn(6)]
+		if r.Chance(0.5) {
+			fresh := g.env.Dids[other]
+			if x == fresh {
+				x = did
+			}
+			doc := g.didDoc(fresh, []int{other}, 0)
+			doc.Id = x
+			g.tx(MsgSpec{T: "did.Create", F: map[string]string{"did": fresh, "from": from}, Doc: doc, Proof: &ProofSpec{Key: other, MethodID: fmt.Sprintf("%s#key%d", fresh, other), Seq: "0"}})
+		} else {
+			doc := g.didDoc(did, []int{k}, 0)
+			doc.Id = x
+			upd(&ProofSpec{Key: k, MethodID: mid, Seq: "cur"}, doc)
+		}
 	case 17: // rotation that leaves the old key in verificationMethod under the SAME id as the new dedicated authentication method
 		nk := (k + 2 + r.Intn(5)) % NumDidKeys
 		if nk == k {
@@ -1151,7 +1183,7 @@ func (g *Gen) famPnftAdv() {
 	d := dens[r.Intn(len(dens))]
 	owner := g.plan.Denoms[d].Owner
 	stranger := g.addr(6 + r.Intn(3))
-	switch r.Intn(11) {
+	switch r.Intn(12) {
 	case 0: // mint by a non-owner (names itself)
 		g.tx(M("pnft.Mint", "denom", d, "id", g.idFrom(tokenPool, false), "name", "x", "creator", stranger))
 	case 1: // hand over, then old and new owner try to mint
@@ -1207,6 +1239,13 @@ func (g *Gen) famPnftAdv() {
 		dn := g.idFrom(denomPool, true)
 		g.tx(M("pnft.CreateDenom", "id", dn, "name", "n", "symbol", "s", "creator", owner))
 		g.tx(M("pnft.Mint", "denom", dn, "id", g.idFrom(tokenPool, true), "name", "n", "creator", owner))
+	case 11: // two tokens whose (denom id, token id) pairs join to the same text under a separator
+		sep := []string{"/", "/", "/", "/", ":", "|", ".", "-", "_", " ", "#", ","}[r.Intn(12)]
+		a, b, c := []string{"jn", "hospital", "d"}[r.Intn(3)], []string{"ward7", "w", "0"}[r.Intn(3)], []string{"bed12", "b", "1"}[r.Intn(3)]
+		g.tx(M("pnft.CreateDenom", "id", a, "name", "n", "symbol", "s", "creator", owner))
+		g.tx(M("pnft.CreateDenom", "id", a+sep+b, "name", "n", "symbol", "s", "creator", owner))
+		g.tx(M("pnft.Mint", "denom", a, "id", b+sep+c, "name", "n", "creator", owner))
+		g.tx(M("pnft.Mint", "denom", a+sep+b, "id", c, "name", "n", "creator", owner))
 	case 10: // operations on things that do not exist
 		g.tx(M("pnft.Mint", "denom", "no-such-denom", "id", "x", "name", "n", "creator", stranger))
 		g.tx(M("pnft.Burn", "denom", d, "id", "no-such-token", "burner", owner))
@@ -1228,14 +1267,55 @@ func (g *Gen) someCoins() []CoinSpec {
 	return []CoinSpec{{Denom: den, Amount: amt}}
 }
 
+// moduleAccountNames: the accounts the application owns (app.go, maccPerms). Ordinary transfers to them are
+// refused (all but gov); what happens if one ever holds a plain account or coins is part of C07/C17.
+// gov is left out: it is the one module account that may receive funds, and x/gov's InitGenesis (SDK v0.47) then
+// refuses every later export ("expected module account was ... but we got ...") - an SDK behaviour reached by a
+// plain bank transfer, outside the histories C08 quantifies over (see DESIGN.md 11.3).
+var moduleAccountNames = []string{"burn", "burn", "fee_collector", "distribution", "mint", "bonded_tokens_pool", "not_bonded_tokens_pool", "transfer", "nft"}
+
+func (g *Gen) moduleAddr() string {
+	return sdk.AccAddress(authtypes.NewModuleAddress(moduleAccountNames[g.rng.Intn(len(moduleAccountNames))])).String()
+}
+
 func (g *Gen) famBank() {
 	r := g.rng
+	if r.Chance(0.2) {
+		g.tx(MsgSpec{T: "bank.Send", F: map[string]string{"from": g.addr(r.Intn(NumAccounts)), "to": g.moduleAddr()}, Coins: g.someCoins()})
+		return
+	}
 	g.tx(MsgSpec{T: "bank.Send", F: map[string]string{"from": g.addr(r.Intn(NumAccounts)), "to": g.addr(r.Intn(NumAccounts))}, Coins: g.someCoins()})
+}
+
+// famGov: a governance proposal that changes the consensus parameters, and the deciding vote. The new limits take
+// effect when the voting period (10 s of block time) ends, inside some later EndBlock: from then on transactions
+// whose gas limit exceeds block.max_gas are refused by every node - running, restarted or catching up - alike.
+func (g *Gen) famGov() {
+	r := g.rng
+	g.nProposals++
+	maxGas := []string{"-1", "100000000", "29999999", "40000000", "1000000000000"}[r.Pick([]int{2, 3, 3, 2, 1})]
+	maxBytes := []string{"22020096", "1000000", "200000"}[r.Intn(3)]
+	g.emit(&TxSpec{Gas: 2_000_000, Msgs: []MsgSpec{{T: "gov.SubmitParams", F: map[string]string{"proposer": g.addr(r.Intn(NumAccounts)), "max_gas": maxGas, "max_bytes": maxBytes, "metadata": ""},
+		Coins: []CoinSpec{{Denom: FeeDenom, Amount: []string{"1", "1", "5", "0"}[r.Intn(4)]}}}}})
+	if r.Chance(0.85) {
+		opt := "yes"
+		if r.Chance(0.15) {
+			opt = "no"
+		}
+		voter := g.addr(0)
+		if r.Chance(0.1) {
+			voter = g.addr(r.Intn(NumAccounts))
+		}
+		g.emit(&TxSpec{Gas: 2_000_000, Msgs: []MsgSpec{{T: "gov.Vote", F: map[string]string{"proposal": fmt.Sprint(g.nProposals), "voter": voter, "option": opt}}}})
+	}
 }
 
 func (g *Gen) famBurn() {
 	r := g.rng
-	switch r.Intn(3) {
+	switch r.Intn(4) {
+	case 3: // coins for the module account that does the burning, before (or after) coins for the burn address
+		g.tx(MsgSpec{T: "bank.Send", F: map[string]string{"from": g.addr(r.Intn(NumAccounts)), "to": sdk.AccAddress(authtypes.NewModuleAddress("burn")).String()}, Coins: g.someCoins()})
+		g.tx(MsgSpec{T: "bank.Send", F: map[string]string{"from": g.addr(r.Intn(NumAccounts)), "to": BurnAddress}, Coins: g.someCoins()})
 	case 0, 1:
 		g.tx(MsgSpec{T: "bank.Send", F: map[string]string{"from": g.addr(r.Intn(NumAccounts)), "to": BurnAddress}, Coins: g.someCoins()})
 	case 2:
@@ -1384,8 +1464,56 @@ func (g *Gen) famTamper() {
 	r := g.rng
 	topics := g.planTopics()
 	var honest, forged []MsgSpec
-	mode := r.Intn(7)
+	mode := r.Intn(9)
 	switch {
+	case mode == 7 && len(g.planDids(true)) > 0:
+		// twins under a careless text encoding of the document: one list element that contains '","' against two elements,
+		// a literal backslash-u escape against the character it would decode to, a quote inside a value
+		did := g.planDids(true)[r.Intn(len(g.planDids(true)))]
+		keys, mids := g.authKeys(did)
+		if len(keys) == 0 {
+			return
+		}
+		from := g.addr(r.Intn(4))
+		d1 := g.didDoc(did, []int{keys[0]}, 0)
+		d2 := *d1
+		switch r.Intn(4) {
+		case 0:
+			d1.Contexts = []string{w3cContext, "https://example.com/a", "https://example.com/b"}
+			d2.Contexts = []string{w3cContext, `https://example.com/a","https://example.com/b`}
+		case 1:
+			d1.Contexts = []string{w3cContext, "https://example.com/ns/A"}
+			d2.Contexts = []string{w3cContext, `https://example.com/ns/\u0041`}
+		case 2:
+			d1.Controller = []string{did, g.env.Dids[0]}
+			d2.Controller = []string{did + `","` + g.env.Dids[0]}
+		case 3:
+			d1.Services = []SvcSpec{{Id: "svc1", Type: "LinkedDomains", Endpoint: "https://example.org/A"}}
+			d2.Services = []SvcSpec{{Id: "svc1", Type: "LinkedDomains", Endpoint: `https://example.org/\u0041`}}
+		}
+		// the same proof bytes in both: what is compared is what the account signature covers
+		p := &ProofSpec{Key: keys[0], MethodID: mids[0], Seq: "cur", RawSig: strings.Repeat("5a", 64)}
+		honest = []MsgSpec{{T: "did.Update", F: map[string]string{"did": did, "from": from}, Doc: d1, Proof: p}}
+		forged = []MsgSpec{{T: "did.Update", F: map[string]string{"did": did, "from": from}, Doc: &d2, Proof: p}}
+		if r.Chance(0.5) {
+			honest, forged = forged, honest
+		}
+	case mode == 8:
+		// the same for plain text fields of the other modules
+		o := g.addr(r.Intn(4))
+		a, b := "n-A", `n-\u0041`
+		if r.Chance(0.5) {
+			a, b = `q"x`, `q\"x`
+		}
+		if r.Chance(0.5) {
+			id := fmt.Sprintf("tw%d", g.next)
+			honest = []MsgSpec{M("pnft.CreateDenom", "id", id, "name", a, "symbol", "s", "creator", o)}
+			forged = []MsgSpec{M("pnft.CreateDenom", "id", id, "name", b, "symbol", "s", "creator", o)}
+		} else if len(topics) > 0 {
+			t := topics[r.Intn(len(topics))]
+			honest = []MsgSpec{M("aol.AddWriter", "topic", t[1], "owner", t[0], "writer", g.addr(7), "moniker", a, "desc", "")}
+			forged = []MsgSpec{M("aol.AddWriter", "topic", t[1], "owner", t[0], "writer", g.addr(7), "moniker", b, "desc", "")}
+		}
 	case mode <= 2 && len(topics) > 0:
 		t := topics[r.Intn(len(topics))]
 		ws := g.planWriters(t[0], t[1])
